@@ -90,6 +90,26 @@ Definition run_freshAlias (h : heap) (root : N) : heap * list warning :=
   let '(h1, u) := alloc h {| tag := 3; kids := [] |} in
   (set_kids h1 u [root], [(root, "may want to evaluate first")]).
 
+(* shallow copy: `x := *node; x.Op = ..; use &x` — a fresh cell with the SAME child pointers, then a top-level field write *)
+Definition run_shallowCopy (h : heap) (root : N) : heap * list warning :=
+  match cells h root with
+  | Some n => let '(h1, c) := alloc h n in (set_tag h1 c 7, [(root, "suggestion built on a shallow copy")])
+  | None => (h, [])
+  end.
+(* ... and a top-level re-pointing of a child of the copy (selector := *s; selector.X = arg) *)
+Definition run_shallowCopy_repoint (h : heap) (root arg : N) : heap * list warning :=
+  match cells h root with
+  | Some n => let '(h1, c) := alloc h n in (set_kids h1 c [arg], [(root, "suggestion built on a shallow copy")])
+  | None => (h, [])
+  end.
+(* the unsound variant: a write THROUGH a shared child pointer of the shallow copy (x.X.( *ast.Ident).Name = .., x.List[0] = ..) *)
+Definition run_shallowCopy_through (h : heap) (root : N) : heap * list warning :=
+  match cells h root with
+  | Some n => let '(h1, c) := alloc h n in
+              (match kids n with k :: _ => set_tag h1 k 7 | [] => h1 end, [(root, "suggestion built on a shallow copy")])
+  | None => (h, [])
+  end.
+
 (* a read-only checker: its diagnostics are a function of what it can see from the root *)
 Definition run_readonly (g : vt -> list warning) (fuel : nat) (h : heap) (root : N) : heap * list warning :=
   (h, g (view fuel h root)).
